@@ -14,17 +14,17 @@ TB_SOLVER = ("Trusted: Lean 4.33.0 kernel; axioms propext, Classical.choice, Quo
 T = {
  "C01": None, "C04": None, "C05": None, "C14": None, "C07": None, "C08": None, "C09": None,
  "C17": None, "C18": None, "C19": None, "C20": None,
- "C02": ("Full for the stated clause: Lean theorem C02_noSolution_sound (every world, every answer sequence consistent with it, any strategy / tie-breaking / fuel, any lawful version set). The 'equivalently' clause is proved up to termination (C02_not_both); open part listed in evidence.open_statements. Tie: exact mirror of recorded runs; oracle: brute-force search for a solution on every NoSolution run.", TB_SOLVER,
+ "C02": ("Full for the stated clause: Lean theorem C02_noSolution_sound (every world, every answer sequence consistent with it, any strategy / tie-breaking / fuel, any lawful version set). The theorem is proved for every lawful version set and, separately, for Range over ANY linear order incl. the discrete u32 / SemanticVersion (where Range is not lawful: 1<v<2 is a non-empty set without members), by pulling it back along the embedding of Range V into Range (V x_lex Q) - the solver commutes with injective version-set homomorphisms (HomSolver.lean, RangeHom.lean, RangeAnyOrder.lean). The 'equivalently' clause is proved up to termination (C02_not_both); open part listed in evidence.open_statements. Tie: exact mirror of recorded runs; oracle: brute-force search for a solution on every NoSolution run.", TB_SOLVER,
          "Lean 4 theorem via the store invariant (induction over reachable coroutine states) + exact-mirror correspondence + brute-force oracle"),
- "C03": ("Full for leaves true / derived entailed / top forbids root / equal ids equal subtrees / id implies repeated occurrence (Lean theorems over the model of build_derivation_tree on an invariant-satisfying store); open: the converse direction of the shared-id clause (evidence.open_statements), covered by exact tree equality with the model and by the oracle's independent reconstruction from the store snapshot.", TB_SOLVER,
+ "C03": ("Full: leaves true / derived entailed / top forbids root / equal ids equal subtrees / id implies repeated occurrence (Lean theorems over the model of build_derivation_tree on an invariant-satisfying store); and the exact characterisation of shared ids (C03_shared_iff: a derived node is marked exactly when two distinct cause edges of the reachable DAG lead to it). Tie: exact tree equality with the model; oracle: independent reconstruction from the store snapshot.", TB_SOLVER,
          "Lean 4 theorems (store invariant, functional tree relation, counting argument) + exact-mirror correspondence + semantic re-derivation oracle"),
- "C06": ("Full: Lean theorem C06_store_valid for every reachable state of the coroutine model (any world, any consistent answers, any strategy, any end of the run). Tie: exact mirror of the store snapshots through the cfg-guarded hook; oracle: every stored clause against all solutions of the tiny registry.", TB_SOLVER,
+ "C06": ("Full: Lean theorem C06_store_valid for every reachable state of the coroutine model (any world, any consistent answers, any strategy, any end of the run). The theorem is proved for every lawful version set and, separately, for Range over ANY linear order incl. the discrete u32 / SemanticVersion (where Range is not lawful: 1<v<2 is a non-empty set without members), by pulling it back along the embedding of Range V into Range (V x_lex Q) - the solver commutes with injective version-set homomorphisms (HomSolver.lean, RangeHom.lean, RangeAnyOrder.lean). Tie: exact mirror of the store snapshots through the cfg-guarded hook; oracle: every stored clause against all solutions of the tiny registry.", TB_SOLVER,
          "Lean 4 theorem (invariant by induction over operations) + exact-mirror correspondence of store snapshots + brute-force oracle"),
  "C10": ("Full: every clause of C10 is a Lean theorem about the model of range.rs for every linear order V (pointwise set laws, canonical results, is_disjoint/subset_of agreement; == iff same points over dense unbounded orders). Tie: exhaustive small-scope equality of every operation.", TB_PURE,
          "Lean 4 theorems (fun_induction over the sweeps) + exhaustive small-scope model/implementation equality"),
  "C11": ("Full: Term operations coincide with evaluation on every choice, for every lawful version set (Lean theorems); the old F2 row is proved wrong (C11_F2_witness). Tie: all 65536 pairs of terms over 3 bound values through the cfg-guarded wrappers.", TB_PURE,
          "Lean 4 theorems by case analysis + exhaustive small-scope model/implementation equality"),
- "C12": ("Full for lawful version sets with canonical emptiness: get_dependencies only after the matching choose_version and at most once, should_cancel first and between choose_version calls, the first query (arbitrary answer sequences), 'choose_version's set is the set last passed to prioritize' and 'that set has a member' (consistent answers; the latter from the invariant that no accumulated term of a live state is empty, PubgrubProofs/NonEmpty.lean) are Lean theorems. For version sets whose emptiness test is structural but not canonical (Range over a discrete order can hold a member-free segment such as 1<v<2) the theorem's hypothesis CanonicalEmpty does not hold and 'set != empty' is decided by the trace automaton on every recorded run and by the exact mirror.", TB_SOLVER,
+ "C12": ("Full: get_dependencies only after the matching choose_version and at most once, should_cancel first and between choose_version calls, the first query (arbitrary answer sequences), 'choose_version's set is the set last passed to prioritize' and 'that set is non-empty' are Lean theorems. Non-emptiness comes from the invariant that no accumulated term of a live state is empty (NonEmpty.lean): for lawful version sets with canonical emptiness the set has a member (C12_choose_nonempty); for Range over ANY linear order, incl. the discrete u32 / SemanticVersion where a canonical set such as 1<v<2 has no member, the set is not Ranges::empty() (C12_range_choose_nonempty, pulled back along the embedding into a dense order) and is canonical (C12_range_requests_wf).", TB_SOLVER,
          "Lean 4 theorems (phase/request coherence invariant over the coroutine) + trace automaton on recorded runs + exact-mirror correspondence"),
  "C13": ("Full: Lean theorems for arbitrary answer sequences (error at any point aborts with the matching variant and payload, nothing follows, causality of the trace, out-of-set answer yields Failure). Tie: fault enumeration - for every base case every callback index of the fault-free trace is failed once (and answered out of set once): exhaustive per case.", TB_SOLVER,
          "Lean 4 theorems over the coroutine + exhaustive per-case fault enumeration mirrored by the model"),
